@@ -60,6 +60,14 @@ def oracle(c):
         n2 = v5.normalized(copy.deepcopy(d), always_return_document=True)
         if n2 is None or (n is not None and n != n2):
             return "normalized(always_return_document=True) returned %r vs %r" % (n2, n)
+        # the four calls agree on ONE validator as well (the same document offered again)
+        r_again = v1.validated(copy.deepcopy(d), update=u)
+        if (r_again is None) != (not ok) or (r_again is not None and r_again != doc1):
+            return "validated() after validate() on the same validator returned %r, expected %r" % (r_again, doc1 if ok else None)
+        n_again = v1.normalized(copy.deepcopy(d), always_return_document=True)
+        if n_again != n2 or canon_errors([real_error(e) for e in v1._errors]) != canon_errors([real_error(e) for e in v5._errors]):
+            return "normalized() after validate()/validated() on the same validator: %r with %d errors, a fresh validator gives %r with %d errors" % (
+                n_again, len(v1._errors), n2, len(v5._errors))
     except cerberus.SchemaError:
         raise
     except Exception:
